@@ -429,7 +429,18 @@ impl Circuit {
     }
 
     pub fn reset<C>(&mut self, config: &CircuitBreakerConfig<C>) {
-        self.transition_to(CircuitState::Closed, config);
+        if self.state == CircuitState::Closed {
+            // Already closed: there is no transition, but reset still has to
+            // discard the recorded calls.
+            self.success_count = 0;
+            self.failure_count = 0;
+            self.total_count = 0;
+            self.slow_call_count = 0;
+            self.count_window.clear();
+            self.call_records.clear();
+        } else {
+            self.transition_to(CircuitState::Closed, config);
+        }
     }
 
     fn transition_to<C>(&mut self, state: CircuitState, config: &CircuitBreakerConfig<C>) {
